@@ -38,7 +38,15 @@ Inductive map_op : Type :=
 | OpLen
 | OpCapacity
 | OpAllocationSize
-| OpDropMap.                             (* drop the collection; state becomes HashMap::new() *)
+| OpDropMap                              (* drop the collection; state becomes HashMap::new() *)
+(* HashSet<T> = HashMap<T, ()> (src/set.rs); values are 0 *)
+| OpSetInsert (k stamp : Z)              (* insert(v) -> bool *)
+| OpSetReplace (k stamp : Z)             (* replace(v) -> Option<T>: stores the NEW key object *)
+| OpSetTake (k : Z)                      (* take(&v) -> Option<T> *)
+| OpSetGet (k : Z)                       (* get(&v) -> Option<&T> (stamp of the stored key) *)
+| OpSetGetOrInsert (k stamp : Z)         (* get_or_insert(v) -> &T *)
+| OpSetGetOrInsertWith (k stamp fk : Z)  (* get_or_insert_with(&k, |_| key fk with this stamp) *)
+| OpSetRemove (k : Z).                   (* remove(&v) -> bool *)
 
 Inductive out : Type :=
 | OutUnit
@@ -50,7 +58,8 @@ Inductive out : Type :=
 | OutTry (r : try_result)
 | OutList (l : list kv)                   (* in implementation order *)
 | OutErrOccupied (stamp v : Z)            (* try_insert: stored key stamp and stored value *)
-| OutUnwind.                              (* the call unwound with a panic from a user callback *)
+| OutUnwind                               (* the call unwound with a panic from a user callback *)
+| OutLibPanic.                            (* the call unwound with a panic raised by the library itself *)
 
 Section Map.
   Variable B : backend.
@@ -210,8 +219,43 @@ Section Map.
         end
     end.
 
+  (* find_or_find_insert_slot followed by `found` / `vacant` (set.rs: replace, get_or_insert, get_or_insert_with) *)
+  Definition m_find_or_slot (t : tbl) (k : Z)
+             (found : tbl -> nat -> kv -> list ev -> res result)
+             (vacant : tbl -> Z -> nat -> list ev -> res result) : res result :=
+    with_hash t k (fun h =>
+      '(t1, evs, unw, r) <- find_or_find_insert_slot B kv tsize talign needs_drop hasher guard_fix t h (eq_key k) alloc_refuses ;;
+      if unw then unwind t1 evs else
+      match r with
+      | Some (inl i) => e <- slot_ref kv t1 i ;; found t1 i e evs
+      | Some (inr slot) => vacant t1 h slot evs
+      | None => Fail UB_unreachable
+      end).
+
   Definition map_step (t : tbl) (op : map_op) : res result :=
     match op with
+    | OpSetInsert k stamp =>
+        '(t1, o, evs) <- m_insert t k stamp 0%Z ;;
+        Ok (t1, match o with OutNone => OutBool true | OutVal _ => OutBool false | x => x end, evs)
+    | OpSetReplace k stamp =>
+        m_find_or_slot t k
+          (fun t1 i e evs => t2 <- slot_write kv t1 i (mkKV k stamp (v_val e)) ;; Ok (t2, OutKV (k_stamp e) 0%Z, evs))
+          (fun t1 h slot evs => t2 <- insert_in_slot B kv t1 h slot (mkKV k stamp 0%Z) ;; Ok (t2, OutNone, evs))
+    | OpSetTake k => m_remove_entry t k (fun e => OutKV (k_stamp e) 0%Z)
+    | OpSetGet k => get_inner t k (fun r => Ok (t, match r with Some (_, e) => OutKV (k_stamp e) 0%Z | None => OutNone end, []))
+    | OpSetGetOrInsert k stamp =>
+        m_find_or_slot t k
+          (fun t1 i e evs => Ok (t1, OutKV (k_stamp e) 0%Z, evs))
+          (fun t1 h slot evs => t2 <- insert_in_slot B kv t1 h slot (mkKV k stamp 0%Z) ;; Ok (t2, OutKV stamp 0%Z, evs))
+    | OpSetGetOrInsertWith k stamp fk =>
+        m_find_or_slot t k
+          (fun t1 i e evs => Ok (t1, OutKV (k_stamp e) 0%Z, evs))
+          (fun t1 h slot evs =>
+             if Z.eqb fk k then t2 <- insert_in_slot B kv t1 h slot (mkKV fk stamp 0%Z) ;; Ok (t2, OutKV stamp 0%Z, evs)
+             else Ok (t1, OutLibPanic, evs))        (* assert!(value.equivalent(&new)) *)
+    | OpSetRemove k =>
+        '(t1, o, evs) <- m_remove_entry t k (fun e => OutBool true) ;;
+        Ok (t1, match o with OutNone => OutBool false | x => x end, evs)
     | OpWithCapacity n =>
         '(evs0, _) <- drop_inner_table B kv tsize talign needs_drop drop_ok t ;;
         r <- fallible_with_capacity B kv tsize talign n alloc_refuses Infallible ;;
@@ -269,7 +313,7 @@ Section Map.
         '(t1, evs) <- retain_loop (S (buckets kv t)) t it keep bump [] ;;
         Ok (t1, OutUnit, evs)
     | OpExtend kvs =>
-        let reserve_n := if (items t =? 0)%Z then zn (length kvs) else Z.div (wadd 64 (zn (length kvs)) 1) 2 in
+        let reserve_n := map_extend_reserve (items t =? 0)%Z (zn (length kvs)) in
         x <- Raw.reserve B kv tsize talign needs_drop hasher guard_fix t reserve_n alloc_refuses ;;
         let '(t1, evs, _, unw) := x in
         if unw then unwind t1 evs else extend_loop t1 kvs [] evs
